@@ -2,17 +2,17 @@
 // definitions, every fact of the Go source that the theorems depend on and that can be read
 // off the source without interpreting control flow:
 //
-//   * every package-level integer/string/bool constant of the modelled packages;
-//   * every package-level array/slice/map composite literal whose elements are constants
+//   - every package-level integer/string/bool constant of the modelled packages;
+//   - every package-level array/slice/map composite literal whose elements are constants
 //     (typeToSize, bits2primes, defaultApplicationExceptionMessage, ...);
-//   * every package-level error value initialised by New{Protocol,Application,Transport}Exception
+//   - every package-level error value initialised by New{Protocol,Application,Transport}Exception
 //     with constant arguments (kind, type id, message);
-//   * for each index expression typeToSize[e]: whether the static type of e is signed;
-//   * the static type (bit width, signedness) of selected local variables (headerInfoSize in
+//   - for each index expression typeToSize[e]: whether the static type of e is signed;
+//   - the static type (bit width, signedness) of selected local variables (headerInfoSize in
 //     ttheader.Decode);
-//   * the constant case labels of selected switch statements (checkProtocolID, the generated
+//   - the constant case labels of selected switch statements (checkProtocolID, the generated
 //     FastRead switches);
-//   * a fingerprint (SHA-256 of the comment-free printed AST) of every function.
+//   - a fingerprint (SHA-256 of the comment-free printed AST) of every function.
 //
 // Output: <out>/Consts.v (replaced only when different) and <fp>/fingerprints.json.
 package main
@@ -98,7 +98,9 @@ type out struct {
 	lines []string
 }
 
-func (o *out) add(format string, a ...interface{}) { o.lines = append(o.lines, fmt.Sprintf(format, a...)) }
+func (o *out) add(format string, a ...interface{}) {
+	o.lines = append(o.lines, fmt.Sprintf(format, a...))
+}
 
 func recvName(fd *ast.FuncDecl) string {
 	if fd.Recv == nil || len(fd.Recv.List) == 0 {
@@ -306,6 +308,7 @@ func main() {
 		o.add("")
 	}
 
+	emitSpan(o, pkgs) // C16: span allocator constants (external module) and thrift's span size
 	text := strings.Join(o.lines, "\n") + "\n"
 	if *outDir != "" {
 		fn := filepath.Join(*outDir, "Consts.v")
@@ -434,12 +437,12 @@ func emitVar(o *out, p *packages.Package, short, name string, val ast.Expr) {
 
 // ---- additive (C11/C15): literal facts of the generated FastCodec writers/readers ----
 //
-//   base.<T>.FastWriteNocopy : for every pair of consecutive statements
-//        b[off] = <const T>; binary.BigEndian.PutUint16(b[off+1:], <const ID>)   -> _fields  (T, ID)
-//        b[off] = <const K>; b[off+1] = <const V>                                -> _mapkv   (K, V)
-//   thrift.ApplicationException.FastWrite : every call <x>.WriteFieldBegin(_, <const T>, <const ID>) -> _fields (T, ID)
-//   thrift.ApplicationException.FastRead  : for every case clause of the tag-less switch, the constant
-//        operands of its == comparisons, in source order                          -> _conds
+//	base.<T>.FastWriteNocopy : for every pair of consecutive statements
+//	     b[off] = <const T>; binary.BigEndian.PutUint16(b[off+1:], <const ID>)   -> _fields  (T, ID)
+//	     b[off] = <const K>; b[off+1] = <const V>                                -> _mapkv   (K, V)
+//	thrift.ApplicationException.FastWrite : every call <x>.WriteFieldBegin(_, <const T>, <const ID>) -> _fields (T, ID)
+//	thrift.ApplicationException.FastRead  : for every case clause of the tag-less switch, the constant
+//	     operands of its == comparisons, in source order                          -> _conds
 func constOf(p *packages.Package, e ast.Expr) (string, bool) {
 	if tv, ok := p.TypesInfo.Types[e]; ok && tv.Value != nil {
 		return coqZ(tv.Value)
@@ -557,5 +560,62 @@ func emitFastCodecFacts(o *out, p *packages.Package, short, rn, fn string, d *as
 			return true
 		})
 		o.add("Definition %s_%s_%s_conds : list (list Z) := [%s]. (* constants compared with == in each case of the tag-less switch *)", short, rn, fn, strings.Join(conds, "; "))
+	}
+}
+
+// emitSpan prints (C16) the argument of thrift's `spanCache = span.NewSpanCache(<const>)`, the
+// initial value of spanCacheEnable, and the package-level constants of the external package
+// github.com/bytedance/gopkg/lang/span (size classes of the bump allocator), which is loaded
+// from source as a dependency of protocol/thrift.
+func emitSpan(o *out, pkgs []*packages.Package) {
+	const spanPath = "github.com/bytedance/gopkg/lang/span"
+	for _, p := range pkgs {
+		if pkgShort[p.PkgPath] != "thrift" {
+			continue
+		}
+		o.add("(* ---- span allocator used by %s ---- *)", p.PkgPath)
+		for _, f := range p.Syntax {
+			for _, d := range f.Decls {
+				gd, ok := d.(*ast.GenDecl)
+				if !ok || gd.Tok != token.VAR {
+					continue
+				}
+				for _, s := range gd.Specs {
+					vs := s.(*ast.ValueSpec)
+					for i, name := range vs.Names {
+						if i >= len(vs.Values) {
+							continue
+						}
+						switch name.Name {
+						case "spanCache":
+							if ce, ok := vs.Values[i].(*ast.CallExpr); ok && len(ce.Args) == 1 {
+								if sel, ok := ce.Fun.(*ast.SelectorExpr); ok && sel.Sel.Name == "NewSpanCache" {
+									if z, ok := coqZ(p.TypesInfo.Types[ce.Args[0]].Value); ok {
+										o.add("Definition thrift_spanCache_size : Z := %s.", z)
+									}
+								}
+							}
+						case "spanCacheEnable":
+							if z, ok := coqZ(p.TypesInfo.Types[vs.Values[i]].Value); ok {
+								o.add("Definition thrift_spanCacheEnable_init : Z := %s.", z)
+							}
+						}
+					}
+				}
+			}
+		}
+		if sp := p.Imports[spanPath]; sp != nil && sp.Types != nil {
+			scope := sp.Types.Scope()
+			names := scope.Names()
+			sort.Strings(names)
+			for _, n := range names {
+				if c, ok := scope.Lookup(n).(*types.Const); ok {
+					if z, ok := coqZ(c.Val()); ok {
+						o.add("Definition span_%s : Z := %s.", n, z)
+					}
+				}
+			}
+		}
+		o.add("")
 	}
 }
